@@ -5,6 +5,7 @@ TWOQ = {"CNOT", "CZ"}
 PHS = {}
 STRAT = "clifford"
 TEMPLATE <- NoTemplate
+SIMPMODE = "all"
 GAUSS = "simple"
 INIT Init
 NEXT Next
